@@ -79,6 +79,8 @@ structure DrvSt where
   lastTok : List (String × Nat) := []
   sp : Spec.SpSt := {}
   started : Bool := false
+  /-- ingress through the real link service (dispatchInterest / dispatchData of fw/face) -/
+  ls : Bool := false
 
 def labelOf (labels : List Nat) (t : Nat) : List Nat × Nat :=
   match labels.findIdx? (· == t) with
@@ -157,14 +159,16 @@ def stepFw (pid : String) (d : DrvSt) (op : String) (got : String) : StepResult 
   let bad : StepResult DrvSt := { st := d, expected := some "bad-op" }
   let cfg (m : St) (sp : Spec.SpSt) : StepResult DrvSt :=
     { st := { d with m := m, sp := sp }, expected := some "ok" }
-  match op.splitOn " " with
-  | ["new", a, sv, cap, dnl, _alg] =>
+  let newOp (a sv cap dnl : String) (ls : Bool) : StepResult DrvSt :=
     match parseB a, parseB sv, cap.toNat?, dnl.toNat? with
     | some a, some sv, some cap, some dnl =>
       { st := { m := { csAdmit := a, csServe := sv, csCap := cap, dnlLife := dnl * ms },
-                sp := { csAdmit := a, csServe := sv, dnlLife := dnl * ms }, started := true },
-        expected := some "ok" }
+                sp := { csAdmit := a, csServe := sv, dnlLife := dnl * ms }, started := true, ls := ls },
+        expected := some "ok", cov := [if ls then "ingress-link-service" else "ingress-direct"] }
     | _, _, _, _ => bad
+  match op.splitOn " " with
+  | ["new", a, sv, cap, dnl, _alg] => newOp a sv cap dnl false
+  | ["new", a, sv, cap, dnl, _alg, "ls"] => newOp a sv cap dnl true
   | _ =>
   if !d.started then { st := d, expected := some "skip" } else
   match op.splitOn " " with
@@ -263,6 +267,18 @@ def stepFw (pid : String) (d : DrvSt) (op : String) (got : String) : StepResult 
       | none => { st := d, expected := some "skip", cov := ["d-skip"] }
       | some dt =>
         let dd : Data := { name := n, freshMs := fresh, content := c, tok := dt }
+        /- the face layer is not transparent for two kinds of Data (fw/face/link-service.go dispatchData):
+           a 6-byte PIT token names its forwarding thread in the first two bytes (only thread 0 exists
+           here), and token-less Data from a local face is handed to the threads of its prefixes of
+           length >= 1 - none for the empty name -/
+        let tokBytes := (bytesOfHex tok).getD []
+        let faceLocal := match faceOf d.m.faces f with | some fc => fc.isLocal | none => false
+        let droppedByFaceLayer := d.ls && (faceOf d.m.faces f).isSome &&
+          ((tokBytes.length == 6 && !(tok.startsWith "T") && !(tok.startsWith "@") && tokBytes.take 2 != [0, 0]) ||
+           (faceLocal && n.isEmpty && (match dt with | .six _ => false | _ => true)))
+        if droppedByFaceLayer then
+          { st := d, expected := some (" | " ++ counters d.m), cov := ["d-dropped-by-face-layer"] }
+        else
         let (m, sends) := step d.m (.data f dd)
         let (labels, strs) := renderSends d.labels sends
         let (sp, fails) := match parseGot got with
